@@ -65,7 +65,7 @@ CHECKS = {
          "Trusted: reference interpreter; one-operand not = negation of an operator object; plain strings are raw GRL (atoms only).", "DESIGN §5 C18"),
  "C20": ("exploration", "sandboxed child processes (RLIMIT_AS, BEGIN/END progress log, in-child CPU watchdog, MemStats.Sys growth)",
          "Random bytes, valid seeds and structure-aware mutants (bit flips, byte edits, truncation, splicing, dictionary tokens, boundary numbers, deep nesting, edits of every 8-byte GRB length / count field) for the four loaders; verdicts: panic escaping the API, death of the process (fatal error, OOM under RLIMIT_AS, stack overflow), CPU time above T(n), OS memory growth above M(n). Hangs are decided on the child's CPU time, the parent's wall-clock watchdog only yields inconclusive.",
-         "Budgets T(n) = 30 s + 2 us n^2 and M(n) = 96 MiB + 256 n are fixed (>=10x the measured worst case, reported in the evidence); inputs <= 4 KiB (rules) / 64 KiB (facts, GRB).", "DESIGN §5 C20"),
+         "Budgets T(n) = 30 s + 2 us n^2 and M(n) = 512 MiB + 256 n are fixed (>=10x the measured worst case, reported in the evidence); inputs <= 4 KiB (rules) / 64 KiB (facts, GRB).", "DESIGN §5 C20"),
 }
 
 
